@@ -192,6 +192,11 @@ func init() {
 		if m := S(op, "hookmode"); m != "" {
 			config.Parsed.Media.Hook = []string{"verifwait", "%url", m}
 		}
+		/* a hook that is told the media type as well (the last argument still says how it ends) */
+		if B(op, "hooktypes") {
+			h := []string{"verifwait", "%url", "%mimetype", "%subtype", "%supertype"}
+			config.Parsed.Media.Hook = append(h, config.Parsed.Media.Hook[2:]...)
+		}
 		var hookState *ui.State
 		releaseHooks := func() {
 			os.WriteFile(gate, []byte("go"), 0o644)
@@ -525,7 +530,8 @@ func genUI(r *rand.Rand, n int, emit func(Op)) {
 			/* media: what the o key opens (typed, untyped, several candidates, none) */
 			switch weighted(r, 5, 2, 1, 1, 1) {
 			case 1:
-				fields["url"] = []any{map[string]any{"type": "Link", "href": "https://m.example/" + name + ".mp4", "mediaType": "video/mp4"}}
+				/* typed; now and then with something that is no media type */
+				fields["url"] = []any{map[string]any{"type": "Link", "href": "https://m.example/" + name + ".mp4", "mediaType": pick(r, []any{"video/mp4", "video/mp4", "video/mp4", "mp4", 5, "a/b/c; =", "", "video/"})}}
 			case 2:
 				fields["type"] = "Video"
 				fields["url"] = []any{
@@ -934,7 +940,7 @@ func genUI(r *rand.Rand, n int, emit func(Op)) {
 			}
 		}
 		op := Op{"op": "ui", "routes": g.routes, "start": pick(r, starts), "keys": keys, "feeds": feeds, "width": uiW, "height": uiH,
-			"hookmode": pick(r, []string{"", "", "", "fail", "fail", "failquiet", "failbig", "failbin", "okbig"})}
+			"hookmode": pick(r, []string{"", "", "", "fail", "fail", "failquiet", "failbig", "failbin", "okbig"}), "hooktypes": r.Intn(3) == 0}
 		/* started the other documented way: `servitor feed <name>` (an unknown name or command ends
 		   the program before any page exists) */
 		switch r.Intn(12) {
